@@ -15,8 +15,26 @@ from vcheck import core
 from vcheck.val import Exc, from_jsonable, jsonable, zlit
 
 PROP = "C08"
-COQ_TARGETS = ["theories/Model/IndelMapRun.vo"]
+COQ_TARGETS = ["theories/Model/IndelMapRun.vo", "theories/Model/FeatureMapRun.vo"]
 NA = "<n/a>"  # the specification does not speak about this observation
+
+# clauses of the property that are not covered by an unbounded theorem about the live code
+PARTIAL = [
+    "slicing with a stop beyond the end: the pinned code violates Python's clamping (slice_beyond_len_refuted); in-range "
+    "intervals are proved for all maps (slice_spec) and the corrected method for all bounds (slice_v2_spec)",
+    "concatenation with a gap run split over the joint: the pinned code violates it (add_refuted); proved for all other "
+    "pairs (add_spec_partial), read through abs for all pairs (add_abs_spec), and for the corrected method for all pairs "
+    "(add_v2_spec)",
+    "nongap() of a gap-free map and get_coordinates() with >= 2 gaps and a short residue tail: violated by the pinned code "
+    "(nongap_refuted, get_coordinates_refuted); proved on the rest of the domain for all lengths (nongap_spec_partial, "
+    "get_coordinates_spec_partial); the corrected methods only for strings of length <= 10 (listings_v2_bounded_partial)",
+    "FeatureMap covered / inverse / shadow: theorems by complete enumeration for maps of <= 2 spans on parents of length "
+    "<= 4 only (covered_/inverse_/shadow_bounded_partial; shadow_of_inverse reduces shadow to inverse for all maps); "
+    "composition, slicing, gaps, without_gaps are proved for all maps inside their parent",
+    "FeatureMap nucleic_reversed and __mul__: the cell-by-cell statement is proved for forward maps; for maps with reversed "
+    "spans only cell count and 'inside the parent' (the method discards strand, as documented)",
+    "merge_maps: parent_length=None only; termini_unknown, tidy_start/tidy_end/value, serialisation: not modelled",
+]
 
 
 # ------------------------------------------------------------------ plain-Python oracle on mask strings
@@ -771,8 +789,63 @@ def coq_case(c):
     raise ValueError(c["kind"])
 
 
-def run_model(cases):
-    return core.coq_eval(PROP, ["Model.IndelMap", "Model.IndelMapRun"], "run_case", [coq_case(c) for c in cases], "case", shard=60)
+# ------------------------------------------------------------------ which transcription describes the code that is there
+
+# The pinned code violates the property at four places of IndelMap (theorems *_refuted of Properties/C08.v);
+# Model/IndelMapFixed.v transcribes the proposed corrections.  The variant is chosen from the BEHAVIOUR of the
+# implementation on the witness inputs of the refuted theorems (never from its text), so that a harmless rewrite
+# changes nothing and any other behaviour still shows up as a model/implementation disagreement.
+PROBES = [
+    ("slice", dict(kind="unary", mask="x-x", slices={"list": [[0, 9]]}, idx=[], sidx=[], scales=[], block="probe"),
+     lambda o: o[10][0] == canon_state("x-x")),
+    ("add", dict(kind="binary", mask="-", others=["-"], block="probe"), lambda o: o[0][0] == canon_state("--")),
+    ("coords", dict(kind="unary", mask="-x-x", slices={"list": []}, idx=[], sidx=[], scales=[], block="probe"),
+     lambda o: nonempty(o[5]) == [[0, 1], [1, 2]]),
+    ("nongap", dict(kind="unary", mask="x", slices={"list": []}, idx=[], sidx=[], scales=[], block="probe"),
+     lambda o: nonempty(o[4]) == [[0, 1]]),
+]
+REFUTED_THEOREM = {"slice": "slice_beyond_len_refuted", "add": "add_refuted", "coords": "get_coordinates_refuted",
+                   "nongap": "nongap_refuted"}
+
+
+def probe_variant():
+    """{site: True if the implementation satisfies the specification on the witness of the refuted theorem}"""
+    docs = core.run_impl_lines("c08_impl.py", [c for _, c, _ in PROBES])
+    out = {}
+    for (site, _, ok), doc in zip(PROBES, docs):
+        try:
+            out[site] = bool("obs" in doc and ok(from_jsonable(doc["obs"])))
+        except Exception:
+            out[site] = False
+    return out
+
+
+def cfspan(sp):
+    if isinstance(sp, int):
+        return f"FL {zlit(sp)}"
+    return f"FS {zlit(sp[0])} {zlit(sp[1])} {'true' if sp[2] else 'false'}"
+
+
+def coq_fcase(c):
+    spans = "[" + ";".join(cfspan(sp) for sp in c["spans"]) + "]"
+    subs = "[" + ";".join("[" + ";".join(cfspan(sp) for sp in sub) + "]" for sub in c["subs"]) + "]"
+    slices = "[" + ";".join(f"({copt(a)},{copt(b)})" for a, b in c["slices"]) + "]"
+    return f"CFmap {spans} {zlit(c['plen'])} {czlist(c['scales'])} {subs} {slices}"
+
+
+def run_fmodel(cases):
+    return core.coq_eval(PROP, ["Model.IndelMap", "Model.FeatureMap", "Model.FeatureMapRun"], "run_fcase",
+                         [coq_fcase(c) for c in cases], "fcase", shard=150, tag="f")
+
+
+def variant_term(v):
+    b = lambda x: "true" if x else "false"
+    return f"(mk_variant {b(v['slice'])} {b(v['add'])} {b(v['coords'])} {b(v['nongap'])})"
+
+
+def run_model(cases, variant=None):
+    runner = "run_case" if variant is None else f"run_case_v {variant_term(variant)}"
+    return core.coq_eval(PROP, ["Model.IndelMap", "Model.IndelMapRun"], runner, [coq_case(c) for c in cases], "case", shard=60)
 
 
 # ------------------------------------------------------------------ comparison
@@ -826,7 +899,10 @@ def compare_case(rep, tally, c, impl_doc, model_obs, seen_masks):
     if c["kind"] == "fmap":
         items = fm_items(c)
         flat = fm_flatten(c, obs)
-        for (op, args, key, check), got in zip(items, flat):
+        mflat = fm_flatten(c, model_obs) if model_obs is not None else [None] * len(flat)
+        if len(items) != len(flat) or len(items) != len(mflat):
+            raise core.CheckError(f"observation layout mismatch (fmap): {len(items)} items, {len(flat)} impl, {len(mflat)} model")
+        for (op, args, key, check), got, m_v in zip(items, flat, mflat):
             tally.evaluations += 1
             tally.by_op["fmap." + op] = tally.by_op.get("fmap." + op, 0) + 1
             tally.spec_checked += 1
@@ -836,9 +912,14 @@ def compare_case(rep, tally, c, impl_doc, model_obs, seen_masks):
                 tally.n_vio += 1
                 rep.violation(key if bounds else key + ":out-of-parent",
                               dict(case=small_case(c, op, args), op=op, args=args, expected_by_spec=jsonable(exp),
-                                   observed_impl=jsonable(got), model_output=None,
+                                   observed_impl=jsonable(got), model_output=jsonable(m_v),
                                    broken="FeatureMap operation differs from its set-of-positions meaning"
                                    if exp is not None else "coordinates outside the parent"))
+            elif model_obs is not None and got != m_v:
+                tally.n_dis += 1
+                if len(tally.disagreements) < 5:
+                    tally.disagreements.append(dict(key=key, case=small_case(c, op, args), op=op, args=args,
+                                                    observed_impl=jsonable(got), model_output=jsonable(m_v)))
         if c["spans"] and any(not isinstance(s, int) for s in c["spans"]):
             tally.nontrivial += len(items)
         return
@@ -881,7 +962,10 @@ def compare_case(rep, tally, c, impl_doc, model_obs, seen_masks):
 
 
 def build_cases(tier, rng, widen=1):
-    cases = []
+    # corpus first: the witness inputs of the *_refuted theorems (and of the merge_maps dtype defect), so that the
+    # replay written for each of those kinds is the readable one
+    cases = [dict(c, block="corpus") for _, c, _ in PROBES]
+    cases.append(dict(kind="binary", mask="xx", others=["x-x"], block="corpus"))
     cases += exhaustive_unary(tier)
     cases += exhaustive_binary(tier)
     cases += exhaustive_join(tier)
@@ -898,22 +982,36 @@ def run(tier: str, seed: int) -> int:
     rng = random.Random(seed * 7919 + 8)
     pr = core.proof_stage(PROP, COQ_TARGETS)
     core.proof_coverage(rep, pr, "make theories/Properties/C08.vo && coqc gen/assum_C08.v (Print Assumptions)", [
-        "numpy int32/int64 arrays are modelled as unbounded integer lists (no overflow); numpy.searchsorted is modelled as "
-        "a linear 'first index with element >= v' scan, equal to the binary search on the sorted arrays of a well-formed map",
-        "FeatureMap / Span.remap_with are not modelled in Coq: compared against the plain-Python set-of-positions oracle only",
+        "numpy int32/int64 arrays are modelled as unbounded integer lists (no overflow, no dtype); numpy.searchsorted is modelled "
+        "as a linear 'first index with element >= v (> v)' scan, equal to the binary search on the sorted arrays of a well-formed map",
+        "Model/IndelMapFixed.v transcribes the corrections proposed in notes/proposed_fixes/C08-*.diff; which of the two "
+        "transcriptions is compared with the implementation is decided by the implementation's behaviour on the four witness "
+        "inputs of the *_refuted theorems (coverage.model_variant)",
+        "theorems named *_bounded_partial are decided by complete enumeration inside Coq (vm_compute) up to the length bound "
+        "in their statement",
+        "FeatureMap / Span.remap_with: modelled (Model/FeatureMap.v, tidy_start/tidy_end/value not modelled) and compared "
+        "observation by observation; their set-theoretic meaning is checked by the plain-Python set-of-positions oracle",
     ])
     rep.assumptions += [
-        "slice theorem: 0 <= start <= stop <= len(map) after Python's negative-index conversion; an out-of-range negative bound "
-        "is rejected by the class with IndexError (convention asserted by its own tests) and is outside the specification",
+        "slice theorems: bounds inside [0, len(map)] after Python's negative-index conversion (slice_spec, slice_spec_python); an "
+        "out-of-range negative bound is rejected by the class with IndexError (convention asserted by its own tests) and is "
+        "outside the specification; a stop beyond the end must be clamped as for any Python sequence (slice_v2_spec; the pinned "
+        "code does not: slice_beyond_len_refuted)",
         "binary operations minus_gaps/shared_gaps: both maps come from the same alignment (equal aligned length), "
         "merge_maps: both maps are over the same sequence (equal parent_length)",
+        "a FeatureMap without any span cannot be indexed (IndexError from Span.remap_with): treated as an explicit rejection",
     ]
     proof_broken = bool(pr["problems"])
     cases, fm = build_cases(tier, rng, widen=3 if proof_broken else 1)
     impl = core.run_impl_sharded("c08_impl.py", cases + fm, timeout=3000)
+    variant = probe_variant()
+    rep.coverage["model_variant"] = {
+        site: ("corrected code (Model/IndelMapFixed.v): theorem %s documents the behaviour before the fix" % REFUTED_THEOREM[site])
+        if fixed else ("pinned code (Model/IndelMap.v): theorem %s applies to the live code" % REFUTED_THEOREM[site])
+        for site, fixed in variant.items()}
     model = None
     try:
-        model = run_model(cases)
+        model = run_model(cases, variant)
     except core.CheckError as e:
         if not proof_broken:
             raise
@@ -922,8 +1020,15 @@ def run(tier: str, seed: int) -> int:
     seen = set()
     for k, c in enumerate(cases):
         compare_case(rep, tally, c, impl[k], model[k] if model is not None else None, seen)
+    fmodel = None
+    try:
+        fmodel = run_fmodel(fm)
+    except core.CheckError as e:
+        if not proof_broken:
+            raise
+        rep.notes.append(f"FeatureMap model not runnable: {str(e)[:300]}")
     for k, c in enumerate(fm):
-        compare_case(rep, tally, c, impl[len(cases) + k], None, seen)
+        compare_case(rep, tally, c, impl[len(cases) + k], fmodel[k] if fmodel is not None else None, seen)
 
     dist = {}
     for c in cases + fm:
@@ -934,20 +1039,20 @@ def run(tier: str, seed: int) -> int:
         b = len(c["mask"])
         b = str(b) if b <= 10 else "11-40" if b <= 40 else "41-300"
         lens[b] = lens.get(b, 0) + 1
-    sample = small_case(cases[37], "getitem", [1, 3])
     rep.coverage.update(
         evaluations=tally.evaluations, distinct_nontrivial=tally.nontrivial,
         rule="one evaluation = one observation (full state gap_pos/cum_gap_lengths/parent_length of a result map, or one query "
              "result) of one operation with one argument tuple on one gap mask, compared with the Coq model and, where the "
              "specification applies, with the string oracle; non-trivial = the mask contains at least one gap and one residue "
              "(FeatureMap: the map has at least one real span); distinct = first occurrence of the (kind, mask) pair",
-        samples=[dict(case=sample, impl=impl[37]["obs"][10] if "obs" in impl[37] else impl[37])],
+        samples=[dict(case=cases[k], impl=(impl[k]["obs"][slot] if "obs" in impl[k] else impl[k]), observed=what)
+                 for k, slot, what in ((0, 10, "m[0:9] as [gap_pos, cum_gap_lengths, parent_length]"),
+                                      (1, 0, "m1 + m2: state, spans as string, len, seq indices, align indices, merge, minus, shared"),
+                                      (2, 5, "get_coordinates()"))],
         input_distribution=dict(cases=dist, mask_lengths=lens, observations_by_op=tally.by_op,
                                 spec_checked=tally.spec_checked),
         model_impl_disagreements=tally.n_dis, spec_violations=tally.n_vio,
-        partial=["merge_maps / minus_gaps / shared_gaps / joined_segments / from_aligned_segments: modelled and compared, "
-                 "no general theorem", "FeatureMap (covered, inverse, shadow, nucleic_reversed, composition, bounds): "
-                 "compared with the positions oracle only, not modelled in Coq"],
+        partial=PARTIAL,
         exhaustive=True,
         exhaustive_scope=("all masks of length <= %d x all (start, stop) in -(n+2)..n+2 and None x all indices; all pairs of masks "
                           "of length <= %d; all masks of length <= %d x all lists of <= 3 sorted disjoint segments") % (
